@@ -360,13 +360,24 @@ func genC12(t *rapid.T) c12Case {
 		c.Var = &vc
 	case "snps":
 		s := genC03(t)
-		for k := 0; len(s.Recs) < 10; k++ {
+		for len(s.Recs) > 20 {
+			s.Recs = s.Recs[:20] // the many-records class is handled here, with copies
+		}
+		minRecs := 10
+		if rapid.IntRange(0, 3).Draw(t, "manyRecords") == 0 {
+			minRecs = rapid.SampledFrom([]int{150, 300, 520}).Draw(t, "manyRecordsN")
+		}
+		for k := 0; len(s.Recs) < minRecs; k++ {
 			s.Recs = append(s.Recs, FaRec{ID: fmt.Sprintf("pad%d", k), Seq: s.Recs[k%len(s.Recs)].Seq})
 		}
 		c.Snps = &s
 	case "closest", "closestN":
 		cl := genC06(t)
-		for k := 0; len(cl.Targets) < 10; k++ {
+		minRecs := 10
+		if rapid.IntRange(0, 3).Draw(t, "manyRecords") == 0 {
+			minRecs = rapid.SampledFrom([]int{150, 300, 520}).Draw(t, "manyRecordsN")
+		}
+		for k := 0; len(cl.Targets) < minRecs; k++ {
 			cl.Targets = append(cl.Targets, FaRec{ID: fmt.Sprintf("pad%d", k), Seq: cl.Targets[k%len(cl.Targets)].Seq}) // equal-distance targets
 		}
 		if cl.K < 1 {
@@ -375,7 +386,11 @@ func genC12(t *rapid.T) c12Case {
 		c.Clo = &cl
 	default:
 		u := genC08(t)
-		for k := 0; len(u.Targets) < 10; k++ {
+		minRecs := 10
+		if rapid.IntRange(0, 3).Draw(t, "manyRecords") == 0 {
+			minRecs = rapid.SampledFrom([]int{150, 300, 520}).Draw(t, "manyRecordsN") // copies: ties on distance and ambiguity count
+		}
+		for k := 0; len(u.Targets) < minRecs; k++ {
 			u.Targets = append(u.Targets, FaRec{ID: fmt.Sprintf("pad%d", k), Seq: u.Targets[k%len(u.Targets)].Seq})
 		}
 		u.Opts.Ignore = nil
